@@ -238,6 +238,34 @@ def op_persist(st, o):
     return "reloaded"
 
 
+@op("S.aligned_far")
+def op_aligned_far(st, o):
+    """A copy of the mesh moved by K + 1/2 cells along one axis, K = 10**4 .. 10**6: whatever the
+    distance, half a cell off the lattice is not aligned (the positive case is not asked at such
+    distances: there the library's absolute tolerance meets the rounding of the remainder)."""
+    h = st.h[o["on"]]
+    if h.kind != "M":
+        return "skipped"
+    mm = h.box.v
+    ax = o["ax"] % mm.region.ndim
+    v = [0.0] * mm.region.ndim
+    v[ax] = (10 ** o["e"] + 0.5) * float(mm.cell[ax])
+    res = sut(lambda: st.df.Mesh(p1=[float(x) + d for x, d in zip(mm.region.pmin, v)], p2=[float(x) + d for x, d in zip(mm.region.pmax, v)], n=list(mm.n)))
+    if res.raised:
+        return "skipped"
+    far = res.v
+    half = (float(far.region.pmin[ax]) - float(mm.region.pmin[ax])) / float(mm.cell[ax])
+    if abs(half - round(half)) < 0.25:
+        return "skipped"  # rounding of the far corner ate the half cell (no decision margin left)
+    st.stats.oracle("value")
+    st.stats.probe("aligned_far")
+    for a, b, what in ((h.obj, far, "mesh.is_aligned(far copy)"), (far, h.obj, "far copy.is_aligned(mesh)")):
+        got = expect_ok(sut(a.is_aligned, b), what, "value")
+        if bool(got):
+            raise Violation("is_aligned", f"{what} returned True for a copy moved by 10**{o['e']} + 1/2 cells along axis {ax} of {mm!r}", preds=["False", "far"], kind="value")
+    return "aligned=False(far)"
+
+
 @op("S.load_bad")
 def op_load_bad(st, o):
     """load_subregions from a side-car that belongs to another (larger) mesh: its first
